@@ -395,7 +395,9 @@ func graphUnits() []Unit {
 		holder := f.Msg("Holder")
 		holder.Field("v", 1, S(Int32))
 		holder.Rep("vs", 2, S(Sint64))
-		holder.P.Extension = append(holder.P.Extension, ext("inner", 52001, descriptorpb.FieldDescriptorProto_TYPE_BYTES, "", ".google.protobuf.FieldOptions"))
+		holder.P.Extension = append(holder.P.Extension,
+			ext("svc_inner", 52006, descriptorpb.FieldDescriptorProto_TYPE_BOOL, "", ".google.protobuf.ServiceOptions"),
+			ext("inner", 52001, descriptorpb.FieldDescriptorProto_TYPE_BYTES, "", ".google.protobuf.FieldOptions"))
 		f.P.Extension = append(f.P.Extension,
 			ext("contact", 52002, descriptorpb.FieldDescriptorProto_TYPE_STRING, "", ".google.protobuf.MessageOptions"),
 			ext("unit", 52003, descriptorpb.FieldDescriptorProto_TYPE_INT32, "", ".google.protobuf.FieldOptions"),
